@@ -13,6 +13,20 @@ TB_VALUE = TB_COMMON + [
 ]
 
 PROPS = {
+    "C03": {
+        "n_quick": 200, "n_thorough": 6000,
+        "check_fn": "k03_check",
+        "rule": "pairs/triples of generated values of every kind (a, a / re-represented at another precision / perturbed at one leaf / independent), with nulls, "
+                "refined unknowns and marks; set constructor inputs with duplicates, re-represented members and permutations; ValueSet histories of 3-17 (thorough 3-31) "
+                "steps over Add/Remove/Has/Copy/Union/Intersection/Subtract/SymmetricDifference/Values/Length/SetValFromValueSet with final bucket states; "
+                "non-trivial = every case (distinct Gallina terms counted)",
+        "trusted_base": TB_VALUE,
+        "assumptions": ["capsule values compare by pointer identity (no CapsuleOps)",
+                        "history steps that would append into a bucket array shared between ValueSet copies are skipped here (that aliasing defect is C20's subject) and counted"],
+        "refuted": ["C03_number_hash_refuted (KF-C03-1)", "C03_trichotomy_refuted (KF-C03-2)"],
+        "partial": ["RawEquals as an equivalence and Equals symmetry are theorems for numbers/strings/bools/nulls; for nested structures they are checked by the oracle on every generated pair/triple, not yet theorems",
+                    "the set-refinement theorems are generic in (hash, equivalence) and instantiated for string members; other member types rely on the hash-coherence hypothesis, which is refuted for numbers (KF-C03-1)"],
+    },
     "C02": {
         "n_quick": 220, "n_thorough": 12000,
         "check_fn": "kops_check",
